@@ -18,6 +18,8 @@ def allOps : List (String × (V → R V)) :=
   ++ loggingOps
   ++ spaceOps
   ++ g1Ops
+  ++ distOps
+  ++ classicOps ++ mujocoOps
 
 def dispatch (op : String) (a : V) : R V :=
   match allOps.find? (·.1 == op) with
